@@ -1,8 +1,8 @@
 package props
 
 import (
-	"go/ast"
 	"fmt"
+	"go/ast"
 	"strings"
 
 	"golang.org/x/tools/go/ssa"
@@ -119,9 +119,9 @@ func C04(c *Ctx) {
 	}
 
 	m := escrowMoves(c, "A1.escrow-moves", "enterprise", map[string][]string{
-		"MintCoins:to":                          {"BEGIN:enterprise"},
-		"SendCoinsFromModuleToAccount:from":     {"BEGIN:enterprise"},
-		"DelegateCoinsFromAccountToModule:to":   {"BEGIN:enterprise"},
+		"MintCoins:to":                            {"BEGIN:enterprise"},
+		"SendCoinsFromModuleToAccount:from":       {"BEGIN:enterprise"},
+		"DelegateCoinsFromAccountToModule:to":     {"BEGIN:enterprise"},
 		"UndelegateCoinsFromModuleToAccount:from": {"ANTE"},
 	})
 	r.Floor("bank movements naming the enterprise account", m, 4)
@@ -226,7 +226,9 @@ func mintRoutePairing(c *Ctx) {
 		same := len(recips) == 2 && recips[0] == recips[1]
 		r.Require(same, "A3.mint-route-pairing", key+"|recipient", pos(c, me.Site), "the account credited is the account whose coins are delegated back", fmt.Sprint(recips))
 		// locked increment uses the same recipient and amount
-		for _, in := range instantiate(c, f, func(e ir.Effect) bool { return e.Kind == "StoreWrite" && (e.Section == secLocked || e.Section == secTotLocked) }, func(e ir.Effect) *ir.Expr { return marshalArg(c, e) }) {
+		for _, in := range instantiate(c, f, func(e ir.Effect) bool {
+			return e.Kind == "StoreWrite" && (e.Section == secLocked || e.Section == secTotLocked)
+		}, func(e ir.Effect) *ir.Expr { return marshalArg(c, e) }) {
 			v := w.Expand(in.E, 3)
 			amt := v
 			if in.Eff.Section == secLocked {
@@ -547,8 +549,12 @@ func genesisBalance(c *Ctx, module string) {
 					return x.Any(func(z *ir.Expr) bool { return z.Op == "field" && z.Name == "Deposit" }) && !x.Any(func(z *ir.Expr) bool { return z.Op == "call" && strings.HasSuffix(z.Name, ".GetAllBalances") })
 				}
 				// the comparison may sit in a helper that is handed the holdings: judge them as the callers instantiate them
-				isHoldL := func(x *ir.Expr) bool { return isHold(x) || liftAll(c, f, x, func(y *ir.Expr) bool { return isHold(w.Expand(y, 3)) }) }
-				isBalL := func(x *ir.Expr) bool { return isBal(x) || liftAll(c, f, x, func(y *ir.Expr) bool { return isBal(w.Expand(y, 3)) }) }
+				isHoldL := func(x *ir.Expr) bool {
+					return isHold(x) || liftAll(c, f, x, func(y *ir.Expr) bool { return isHold(w.Expand(y, 3)) })
+				}
+				isBalL := func(x *ir.Expr) bool {
+					return isBal(x) || liftAll(c, f, x, func(y *ir.Expr) bool { return isBal(w.Expand(y, 3)) })
+				}
 				return isBalL(a) && isHoldL(b) || isBalL(b) && isHoldL(a)
 			}
 			for i, ret := range ir.Returns(f) {
